@@ -51,6 +51,11 @@ type LoopOp struct {
 type LoopCase struct {
 	Powers []int64  `json:"powers"`
 	Ops    []LoopOp `json:"ops"`
+	// Prefund: hub users own vouchers from the start, so transfers and batches can exist before any Minter event was observed
+	Prefund bool `json:"prefund,omitempty"`
+	// ShortTimeout: TargetEthTxTimeout = 60 s (12 Minter blocks) instead of a day: batch timeout heights get passed
+	// (they mean nothing on Minter, whose multisig knows no timeout and whose batches the hub never withdraws)
+	ShortTimeout bool `json:"short_timeout,omitempty"`
 }
 
 func genLoopCase(t *rapid.T) interface{} {
@@ -58,6 +63,12 @@ func genLoopCase(t *rapid.T) interface{} {
 	n := rapid.IntRange(1, 4).Draw(t, "nvals")
 	for i := 0; i < n; i++ {
 		c.Powers = append(c.Powers, rapid.SampledFrom([]int64{1, 1, 2, 3, 10, 50, 100, 100, 1000}).Draw(t, "power"))
+	}
+	c.Prefund = rapid.IntRange(0, 3).Draw(t, "prefund") == 0
+	c.ShortTimeout = rapid.IntRange(0, 2).Draw(t, "shorttimeout") == 0
+	if c.Prefund {
+		// transfers and a batch before anything was observed on Minter
+		c.Ops = append(c.Ops, LoopOp{Kind: "send", U: 0, Amt: 100, Fee: 1}, LoopOp{Kind: "reqbatch"}, LoopOp{Kind: "block"}, LoopOp{Kind: "block"})
 	}
 	// prelude: a deposit gives the hub users funds and an observed Minter height, everyone relays it
 	c.Ops = append(c.Ops, LoopOp{Kind: "deposit", U: 0, Amt: 1000000}, LoopOp{Kind: "deposit", U: 1, Amt: 500000}, LoopOp{Kind: "round"}, LoopOp{Kind: "round"})
@@ -84,7 +95,7 @@ func genLoopCase(t *rapid.T) interface{} {
 		case x < 94:
 			c.Ops = append(c.Ops, LoopOp{Kind: "deposit", U: rapid.IntRange(0, 1).Draw(t, "u"), Amt: rapid.Int64Range(1, 100000).Draw(t, "amt")})
 		default:
-			c.Ops = append(c.Ops, LoopOp{Kind: "mempty", N: rapid.IntRange(1, 3).Draw(t, "n")})
+			c.Ops = append(c.Ops, LoopOp{Kind: "mempty", N: rapid.SampledFrom([]int{1, 2, 3, 15, 40}).Draw(t, "n")})
 		}
 	}
 	return c
@@ -124,7 +135,15 @@ func runLoopCase(ci interface{}, rec *pbt.Rec) *pbt.Failure {
 	for _, p := range c.Powers {
 		cfgH.Vals = append(cfgH.Vals, sim.ValCfg{Power: p, Bonded: true, Keys: []string{"minter", "ethereum", "bsc"}})
 	}
+	if c.ShortTimeout {
+		cfgH.TargetEthTxTimeout = 60000
+	}
 	h := sim.NewHub(cfgH)
+	if c.Prefund {
+		for u := 0; u < 2; u++ {
+			h.Fund(sim.UserAddr(u), "hub", big.NewInt(1000000000000))
+		}
+	}
 	height, now := int64(1), int64(1600000005)
 	if err := h.Begin(height, now); err != nil {
 		return nil
